@@ -118,7 +118,7 @@ SG = "src/hypergraph/runners/sync/executors/graph_node.py"
 HP = "src/hypergraph/runners/_shared/helpers.py"
 VARIANTS = [
     Variant("wrapper-inputs-required-only", GN, replace_once("        self.inputs = graph.inputs.all", "        self.inputs = graph.inputs.required"), {"C05.R3"}),
-    Variant("wrapper-outputs-ignore-selection", GN, replace_once("        self.outputs = graph.selected if graph.selected is not None else graph.outputs", "        self.outputs = graph.outputs"), {"C05.R3"}),
+    Variant("wrapper-outputs-ignore-selection", GN, replace_once("        exposed = graph.selected if graph.selected is not None else graph.outputs", "        exposed = graph.outputs"), {"C05.R3"}),
     Variant("nested-run-gets-outer-inputs", SG, replace_once("        result = self.runner.run(\n            node.graph,\n            inner_inputs,", "        result = self.runner.run(\n            node.graph,\n            inputs,"), {"C05.R1", "C05.R2"}),
     Variant("default-before-bound", GN, replace_once("        # Check if bound in inner graph first\n        if original_param in self._graph.inputs.bound:\n            return self._graph.inputs.bound[original_param]\n        # Check inner nodes for defaults\n        for inner_node in self._graph.iter_nodes():\n            if original_param in inner_node.inputs and inner_node.has_default_for(original_param):\n                return inner_node.get_default_for(original_param)\n", "        # Check inner nodes for defaults\n        for inner_node in self._graph.iter_nodes():\n            if original_param in inner_node.inputs and inner_node.has_default_for(original_param):\n                return inner_node.get_default_for(original_param)\n        if original_param in self._graph.inputs.bound:\n            return self._graph.inputs.bound[original_param]\n"), {"C05.R5"}),
     Variant("get-input-type-by-current-name", GN, replace_once("        # Resolve param back to original name if renamed\n        original_param = self._resolve_original_input_name(param)\n\n        # Find which node in inner graph has this as an input", "        original_param = param\n\n        # Find which node in inner graph has this as an input"), {"C05.R1"}),
